@@ -528,8 +528,9 @@ Definition vfs_request (s : vfs) (hdr : N) (c : ctx) (o : op) (a : ans) : outcom
 
 (* ---------- the async twin: impl AsyncFileSystem for Vfs (src/api/vfs/async_io.rs) ----------
    Ten methods are re-implemented with their own get_real_rootfs match.  Read line by line they do what the sync
-   methods do, calling the backend's async_<method> (logged with [async_tag] added to the method number), with one
-   exception: async_getattr returns the pseudo fs attributes without convert_attr. *)
+   methods do -- same gates, same routing, same conversions of inode numbers and owner ids -- calling the backend's
+   async_<method> instead (logged with [async_tag] added to the method number).  (Before fix 3199019 async_getattr
+   returned the pseudo fs attributes without convert_attr.) *)
 Definition async_tag : N := 200.
 Definition tag_async (ev : event) : event :=
   mkEv (ev_bid ev) (async_tag + ev_m ev) (ev_ino ev) (ev_ino2 ev) (ev_cuid ev) (ev_cgid ev) (ev_suid ev) (ev_sgid ev).
@@ -545,16 +546,7 @@ Definition has_async_twin (o : op) : bool :=
 Definition tagged (x : outcome reply * list event) : outcome reply * list event := (fst x, map tag_async (snd x)).
 
 Definition vfs_async_op (s : vfs) (c : ctx) (o : op) (a : ans) : outcome reply * list event :=
-  if has_async_twin o then
-    match o with
-    | OGetattr ino =>
-      match get_real_rootfs s ino with
-      | Ok (SLeft id) =>                               (* (Left(fs), idata) => fs.getattr(ctx, idata.ino(), handle) *)
-        (bind (ps_getattr (v_ps s) (ino_of id)) (fun i => Ok (RAttr (pseudo_attr i))), [])
-      | _ => tagged (vfs_op s c o a)
-      end
-    | _ => tagged (vfs_op s c o a)
-    end
+  if has_async_twin o then tagged (vfs_op s c o a)
   else (Err ENOSYS, []).                               (* no async entry point: never issued *)
 
 Definition vfs_request_async (s : vfs) (hdr : N) (c : ctx) (o : op) (a : ans) : outcome reply * list event :=
